@@ -4,6 +4,7 @@ CONSTANTS
   MaxLen = 2
   MaxOps = 1000
   Universe = "adv"
+  Snaps = FALSE
   BType = "rlp"
   BRawId = ""
   Proj <- NoProj
